@@ -1,10 +1,13 @@
 import RP.Driver.Common
 import RP.Model.Hands
+import RP.Model.HandsIso
 /-! line-protocol driver for C06
 * `hands <std|short> <k> <mask> list`   → `n=<count> [<h1> <h2> …]`
 * `hands <std|short> <k> <mask> sum`    → `n=<count> ck=<order checksum>`
 * `obs <std|short> <street 0..3>`       → `n=<count> ck=<order checksum>`
 * `children <std|short> <pocket> <public>` → `n=<count> ck=<order checksum>` or `panic`
+* `iso <std|short> <street 0..3> <n>`    → `n=<count> ck=<order checksum>` of the first `n` items of the
+  isomorphism iterator (C05's `isCanonical` model plugged in; `n` above the class count = all)
 * `niso <std|short> <street 0..3>`      → the generated `n_isomorphisms` entry (proved equal to the
   Burnside value in `RP.C06.C06_burnside_arith`)
 * `nobs <std|short> <street>` / `nchildren <std|short> <street>` → generated table entries -/
@@ -45,6 +48,10 @@ def handle (line : String) : String :=
       match children short p b with
       | none => "panic"
       | some l => fmtSum (l.foldl ckObs (0, 0))
+    | _, _, _ => "bad-op"
+  | ["iso", d, st, n] =>
+    match deckOf d, num? st, num? n with
+    | some short, some st, some n => if st > 3 then "bad-op" else fmtSum (classesSummary short st n)
     | _, _, _ => "bad-op"
   | ["niso", d, st] =>
     match deckOf d, num? st with
